@@ -60,6 +60,17 @@ theorem openReader_rest (b : Buf) (off : Nat) : (openReader b off).rest = (conte
     cases hd : dropChunks (scan s).1 off with
     | none => simp [RSrc.rest, List.drop_eq_nil_of_le (Nat.le_of_lt (dropChunks_none _ _ hd))]
     | some cs => simp [RSrc.rest, (dropChunks_some _ _ _ hd).1]
+  | clone d s =>
+    simp only [openReader, content]
+    cases hd : dropChunks ((scan s).1.flatMap (pieces cloneChunk)) off with
+    | none =>
+      have := dropChunks_none _ _ hd
+      rw [flatMap_pieces_flatten] at this
+      simp [RSrc.rest, List.drop_eq_nil_of_le (Nat.le_of_lt this)]
+    | some cs =>
+      have := (dropChunks_some _ _ _ hd).1
+      rw [flatMap_pieces_flatten] at this
+      simp [RSrc.rest, this]
 
 /-- Every error the opened reader can end with is an error of the buffer. -/
 def Owns (b : Buf) (s : RSrc) : Prop := ∀ e, s.term = .err e → Own b e
@@ -79,6 +90,9 @@ theorem openReader_owns (b : Buf) (off : Nat) : Owns b (openReader b off) := by
   | reader d s =>
     simp only [openReader] at h
     cases hd : dropChunks (scan s).1 off <;> rw [hd] at h <;> exact Or.inl h
+  | clone d s =>
+    simp only [openReader] at h
+    cases hd : dropChunks ((scan s).1.flatMap (pieces cloneChunk)) off <;> rw [hd] at h <;> exact Or.inl h
 
 theorem Owns.read {b : Buf} {s : RSrc} (h : Owns b s) (n : Nat) : Owns b (s.read n).2.2 := by
   intro e he
